@@ -262,9 +262,7 @@ pub fn propagate_input_expressions(
                 address: expression,
             } => {
                 // insert known input expressions
-                for (input_var, input_expr) in insertable_expressions.iter() {
-                    expression.substitute_input_var(input_var, input_expr);
-                }
+                insert_known_input_expressions(expression, &insertable_expressions);
                 // expressions dependent on the assigned variable are no longer insertable
                 insertable_expressions.retain(|input_var, input_expr| {
                     input_var != var && !input_expr.input_vars().into_iter().any(|x| x == var)
@@ -272,10 +270,8 @@ pub fn propagate_input_expressions(
             }
             Def::Store { address, value } => {
                 // insert known input expressions
-                for (input_var, input_expr) in insertable_expressions.iter() {
-                    address.substitute_input_var(input_var, input_expr);
-                    value.substitute_input_var(input_var, input_expr);
-                }
+                insert_known_input_expressions(address, &insertable_expressions);
+                insert_known_input_expressions(value, &insertable_expressions);
             }
         }
     }
@@ -289,10 +285,26 @@ pub fn propagate_input_expressions(
             | Jmp::CallInd { target: expr, .. }
             | Jmp::Return(expr) => {
                 // insert known input expressions
-                for (input_var, input_expr) in insertable_expressions.iter() {
-                    expr.substitute_input_var(input_var, input_expr);
-                }
+                insert_known_input_expressions(expr, &insertable_expressions);
             }
+        }
+    }
+}
+
+/// Replace the input variables of the given expression by their known expressions.
+///
+/// The substitutions are applied in the order of the input variables of the expression
+/// and not in the iteration order of the hash map of insertable expressions:
+/// Substitutions do not commute if an insertable expression itself contains an input variable
+/// that is insertable, so iterating over the hash map would yield different results in different runs.
+fn insert_known_input_expressions(
+    expression: &mut Expression,
+    insertable_expressions: &HashMap<Variable, Expression>,
+) {
+    let input_vars: Vec<Variable> = expression.input_vars().into_iter().cloned().collect();
+    for input_var in input_vars.iter() {
+        if let Some(input_expr) = insertable_expressions.get(input_var) {
+            expression.substitute_input_var(input_var, input_expr);
         }
     }
 }
